@@ -45,6 +45,41 @@ func canon(v ssa.Value) ssa.Value {
 
 func sameValue(a, b ssa.Value) bool { return canon(a) == canon(b) }
 
+// samePath: the two values are the same SSA value, or loads of the same field path from the same base
+// (go/ssa performs no common-subexpression elimination, so `t.Name` read twice is two instructions).
+func samePath(a, b ssa.Value) bool {
+	a, b = canon(a), canon(b)
+	if a == b {
+		return true
+	}
+	ua, ok1 := a.(*ssa.UnOp)
+	ub, ok2 := b.(*ssa.UnOp)
+	if ok1 && ok2 && ua.Op == token.MUL && ub.Op == token.MUL {
+		fa, ok1 := ua.X.(*ssa.FieldAddr)
+		fb, ok2 := ub.X.(*ssa.FieldAddr)
+		return ok1 && ok2 && fa.Field == fb.Field && samePath(fa.X, fb.X)
+	}
+	fa, ok1 := a.(*ssa.Field)
+	fb, ok2 := b.(*ssa.Field)
+	return ok1 && ok2 && fa.Field == fb.Field && samePath(fa.X, fb.X)
+}
+
+// paramIndexOf: index in fn.Params of the parameter v is (directly or through its spill cell), else -1.
+func paramIndexOf(fn *ssa.Function, v ssa.Value) int {
+	v = canon(v)
+	if al, ok := v.(*ssa.Alloc); ok {
+		if pp := paramOfCell(al); pp != nil {
+			v = pp
+		}
+	}
+	for i, p := range fn.Params {
+		if ssa.Value(p) == v {
+			return i
+		}
+	}
+	return -1
+}
+
 type seg struct {
 	owner string // named struct type declaring the field ("" for anonymous structs)
 	name  string
